@@ -77,22 +77,36 @@ fn inv_circuits(e: &AdmitEnv) -> bool {
         && e.circuits.len() <= e.config.max_circuits
 }
 
-fn any_env() -> AdmitEnv {
-    let mut e = AdmitEnv {
+fn empty_env() -> AdmitEnv {
+    AdmitEnv {
         connections: HashMap::new(),
         circuits: CircuitsTracker::default(),
         config: config(small(), small(), small(), small()),
-    };
-    // up to 3 reservation entries over 3 peers x 4 connection ids
-    let mut i = 0;
-    while i < 3 {
-        if kani::any() {
-            let st = if kani::any() { Reservation::Active } else { Reservation::None };
-            e.connections.entry(any_peer()).or_default().insert(any_conn(), st);
-        }
-        i += 1;
     }
-    // up to 2 circuits
+}
+
+fn any_status() -> Reservation {
+    if kani::any() { Reservation::Active } else { Reservation::None }
+}
+
+/// reservation side (the reservation admission text does not read `circuits`): a fixed
+/// key layout with symbolic statuses — peer 0 on connections 0 and 1, peer 1 on
+/// connection 0, peer 2 unknown — so peer 0 holds 0..2 active reservations, peer 1
+/// 0..1; the requester and its connection are arbitrary (3 peers x 4 connections)
+fn any_reservation_env() -> AdmitEnv {
+    let mut e = empty_env();
+    e.connections.entry(peer(0)).or_default().insert(ConnectionId::new_unchecked(0), any_status());
+    e.connections.entry(peer(0)).or_default().insert(ConnectionId::new_unchecked(1), any_status());
+    e.connections.entry(peer(1)).or_default().insert(ConnectionId::new_unchecked(0), any_status());
+    e
+}
+
+/// circuit side: up to 2 circuits with arbitrary endpoints (3 peers x 4 connection ids);
+/// `connections` (read only by the destination lookup) holds one entry: peer 1 on
+/// connection 0 with a symbolic reservation status
+fn any_circuit_env() -> AdmitEnv {
+    let mut e = empty_env();
+    e.connections.entry(peer(1)).or_default().insert(ConnectionId::new_unchecked(0), any_status());
     let mut j = 0;
     while j < 2 {
         if kani::any() {
@@ -137,7 +151,7 @@ fn admit_reservation(e: &mut AdmitEnv) -> Option<(PeerId, ConnectionId)> {
 #[kani::proof]
 #[kani::unwind(8)]
 fn reservation_admission_keeps_per_peer_limit() {
-    let mut e = any_env();
+    let mut e = any_reservation_env();
     kani::assume(inv_reservations(&e));
     if let Some((src, conn)) = admit_reservation(&mut e) {
         assert!(e.connections.get(&src).and_then(|cs| cs.get(&conn)).map_or(false, |s| s.is_active()));
@@ -153,7 +167,7 @@ fn reservation_admission_keeps_per_peer_limit() {
 #[kani::proof]
 #[kani::unwind(8)]
 fn reservation_admission_keeps_total_limit() {
-    let mut e = any_env();
+    let mut e = any_reservation_env();
     kani::assume(inv_reservations(&e));
     if admit_reservation(&mut e).is_some() {
         assert!(total_active(&e) <= e.config.max_reservations, "more active reservations than max_reservations");
@@ -190,7 +204,7 @@ fn admit_circuit(e: &mut AdmitEnv) -> Option<(PeerId, PeerId, usize)> {
 #[kani::proof]
 #[kani::unwind(8)]
 fn circuit_admission_keeps_source_per_peer_limit() {
-    let mut e = any_env();
+    let mut e = any_circuit_env();
     kani::assume(inv_circuits(&e));
     if let Some((src, _dst, _)) = admit_circuit(&mut e) {
         assert!(
@@ -204,7 +218,7 @@ fn circuit_admission_keeps_source_per_peer_limit() {
 #[kani::proof]
 #[kani::unwind(8)]
 fn circuit_admission_keeps_destination_per_peer_limit() {
-    let mut e = any_env();
+    let mut e = any_circuit_env();
     kani::assume(inv_circuits(&e));
     if let Some((_src, dst, _)) = admit_circuit(&mut e) {
         assert!(
@@ -219,7 +233,7 @@ fn circuit_admission_keeps_destination_per_peer_limit() {
 #[kani::proof]
 #[kani::unwind(8)]
 fn circuit_admission_keeps_total_limit() {
-    let mut e = any_env();
+    let mut e = any_circuit_env();
     kani::assume(inv_circuits(&e));
     let before = [circuits_of(&e, peer(0)), circuits_of(&e, peer(1)), circuits_of(&e, peer(2))];
     if let Some((src, dst, _)) = admit_circuit(&mut e) {
@@ -238,7 +252,7 @@ fn circuit_admission_keeps_total_limit() {
 #[kani::proof]
 #[kani::unwind(8)]
 fn circuits_tracker_contracts() {
-    let mut e = any_env();
+    let mut e = any_circuit_env();
     let p = any_peer();
     let c = any_conn();
     let n0 = e.circuits.len();
@@ -264,7 +278,7 @@ fn circuits_tracker_contracts() {
 #[kani::proof]
 #[kani::unwind(8)]
 fn canary_reservations_always_denied() {
-    let mut e = any_env();
+    let mut e = any_reservation_env();
     kani::assume(inv_reservations(&e));
     let ep = some_endpoint();
     let now: Instant = unsafe { std::mem::zeroed() };
